@@ -4,6 +4,7 @@ CONSTANTS
   Sizes = {0, 1, 2, 3, 4, 5}
   MaxFaults = 1
   FaultKinds = {"Flip", "Drop", "Dup", "Swap", "Cut"}
+  Foreign = {"from", "res"}
   MaxHist = 99
 INVARIANTS TypeOK Safe FaultDetected CleanSuccess
 VIEW View
